@@ -36,7 +36,7 @@ func c12Scenarios(level int) []c12Scenario {
 		"properties": J{"zeta": str, "alpha": in, "mid": J{"type": "object", "properties": J{"b": str, "a": in, "c": J{"type": "boolean"}}, "required": A{"b", "a"}},
 			"list": J{"type": "array", "items": J{"$ref": "#/$defs/Item"}}, "e": J{"type": "string", "enum": A{"x", "y", "z"}},
 			"dflt": J{"type": "object", "properties": J{"k": str, "j": in, "l": J{"type": "boolean"}}, "required": A{"k", "j", "l"}, "default": J{"k": "v", "j": 1, "l": true}},
-			"any": J{"anyOf": A{J{"type": "object", "properties": J{"p": str, "q": in}, "required": A{"p"}}, J{"type": "object", "properties": J{"r": str, "q": in}, "required": A{"r"}}}}},
+			"any":  J{"anyOf": A{J{"type": "object", "properties": J{"p": str, "q": in}, "required": A{"p"}}, J{"type": "object", "properties": J{"r": str, "q": in}, "required": A{"r"}}}}},
 		"required": A{"zeta", "alpha"},
 		"$defs": J{"Item": J{"type": "object", "properties": J{"y": str, "x": in}}, "Other": J{"type": "object", "properties": J{"n": J{"type": "number", "minimum": 1}}},
 			"Beta": J{"type": "string", "minLength": 2}, "Aleph": J{"type": "array", "items": in}}}
